@@ -523,12 +523,7 @@ func (t *Taint) boundedAt(v ssa.Value, b *ssa.BasicBlock, depth int) (bool, stri
 				if !isNil {
 					break
 				}
-				switch y := x.(type) {
-				case *ssa.Call:
-					call = y
-				case *ssa.Extract:
-					call, _ = y.Tuple.(*ssa.Call)
-				}
+				call, _ = callOfValue(x)
 				outcome = 1
 			}
 		}
